@@ -1,5 +1,6 @@
 import DcVerif.Lemmas.Ring
 import DcVerif.Lemmas.RingMulti
+import DcVerif.Lemmas.RingPay
 /-!
 # C04 — every published event is delivered exactly once, in order (single-producer pipelines)
 
@@ -20,8 +21,11 @@ consumers start at `cursor + 1 = 1`, so sequence 0 is written but never delivere
 * `c04_single_first_event_never_delivered` — the negation of the full statement (F5): sequence 0 is in no log, ever,
                               although it is written as soon as any batch is.
 
-Payload integrity (clause "sees exactly the payload that was written") is not part of this model's state; it is checked on
-the implementation's events by the correspondence run (driver oracle) and follows, at the level of slots, from C05.
+* `c04_payload_intact`    — payload integrity on the slot layer `Model/RingPay.lean` (ring of `n` slots indexed by
+                              sequence mod n, mutable handlers storing their transformation back): whatever a handler of
+                              stage `k` is handed for sequence `i` is the value written for `i`, transformed by the mutable
+                              handlers of the stages below `k`, in stage order — and nothing else, although slots are reused
+                              every `n` sequences. Hypothesis: a stage with a mutable handler has no other handler (F9).
 -/
 namespace C04
 open Ring
@@ -132,6 +136,59 @@ example : (runX (mk 2 1 (fun _ => 1) false [1, 1]) demoSched).p.pc = .done ∧
 
 example : Reachable (runX (mk 2 1 (fun _ => 1) false [1, 1]) demoSched) :=
   ⟨2, 1, fun _ => 1, false, [1, 1], demoSched, by decide, by intro k _; simp, by decide, rfl⟩
+
+/-! ## payload integrity -/
+section Payload
+open RingPay
+
+/-- a state of the payload layer reachable in a well-formed pipeline whose mutable handlers are alone in their stage -/
+def PayReachable (c : PCfg) (s : PaySt) : Prop :=
+  ∃ (n K : Nat) (h : Nat → Nat) (blocking : Bool) (batches : List Nat) (sched : List Tid),
+    0 < K ∧ (∀ k, k < K → 0 < h k) ∧ (∀ b, b ∈ batches → 1 ≤ b) ∧
+    (∀ k j, k < K → j < h k → c.mutH k j = true → h k = 1) ∧
+    s = runPay c (mkPay n K h blocking batches) sched
+
+theorem payReachable_good {c : PCfg} {s : PaySt} (hr : PayReachable c s) : PayGood c s := by
+  obtain ⟨n, K, h, bl, bs, sched, hK, hh, hb, hT, rfl⟩ := hr
+  exact paygood_run c _ sched (paygood_init c n K h bl bs hK hh hb hT)
+
+/-- **payload integrity**: every `(sequence, payload)` pair handed to handler `(k,j)` carries the value written for that
+sequence, transformed by exactly the mutable handlers of the earlier stages -/
+theorem c04_payload_intact {c : PCfg} {s : PaySt} (hr : PayReachable c s) (k j : Nat)
+    (hk : k < s.x.s.K) (hj : j < s.x.s.h k) (e : Nat × Nat) (he : e ∈ s.seen k j) :
+    e.2 = expectBelow c k (c.pay e.1) :=
+  (payReachable_good hr).2.2.saw k j hk hj e he
+
+/-- the slot layer does not change the system: its projection is a run of `Model/Ring.lean`, so all delivery theorems
+above apply to it -/
+theorem c04_payload_layer_is_ghost (c : PCfg) (s : PaySt) (sched : List Tid) :
+    (runPay c s sched).x = runX s.x sched := by
+  unfold runPay runX
+  induction sched generalizing s with
+  | nil => rfl
+  | cons t ts ih => simp only [List.foldl_cons]; rw [ih, stepPay_x]
+
+/-- the sequences of the `(sequence, payload)` pairs are exactly the delivery log of the handler -/
+theorem c04_seen_is_log {c : PCfg} {s : PaySt} (hr : PayReachable c s) (k j : Nat) :
+    (s.seen k j).map (·.1) = (s.x.s.cons k j).log := by
+  obtain ⟨n, K, h, bl, bs, sched, _, _, _, _, rfl⟩ := hr
+  unfold runPay
+  suffices H : ∀ (s0 : PaySt), (∀ k j, (s0.seen k j).map (·.1) = (s0.x.s.cons k j).log) →
+      ∀ k j, ((sched.foldl (stepPay c) s0).seen k j).map (·.1) = ((sched.foldl (stepPay c) s0).x.s.cons k j).log from
+    H _ (by intro k j; rfl) k j
+  induction sched with
+  | nil => intro s0 h0; exact h0
+  | cons t ts ih => intro s0 h0; exact ih _ (seen_eq_log_step c s0 t h0)
+
+/-! non-vacuity: ring of 2, stage 0 one mutable handler (×3), stage 1 one immutable handler, three events: the ring wraps -/
+def demoCfg : PCfg := { pay := fun q => 100 + q, mutH := fun k _ => k == 0, tf := fun _ _ v => 3 * v }
+def demoPay : PaySt := runPay demoCfg (mkPay 2 2 (fun _ => 1) false [1, 1, 1])
+  ((List.replicate 12 Tid.prod) ++ (List.replicate 12 (Tid.cons 0 0)) ++ (List.replicate 12 (Tid.cons 1 0)) ++
+   (List.replicate 12 Tid.prod) ++ (List.replicate 12 (Tid.cons 0 0)) ++ (List.replicate 12 (Tid.cons 1 0)))
+
+example : demoPay.seen 0 0 = [(1, 101), (2, 102)] ∧ demoPay.seen 1 0 = [(1, 303), (2, 306)] := by decide +kernel
+
+end Payload
 
 /-! ## multi-producer pipelines
 
